@@ -183,7 +183,7 @@ func (e *Exec) lvalOf(st *State, x ast.Expr) lval {
 		for _, i := range sel.Index() {
 			cur, curT = e.stepField(st, x, cur, curT, i)
 		}
-		return cur
+		return e.typed(st, cur, curT)
 	case *ast.StarExpr:
 		pt := e.typeOf(x.X)
 		ref := e.eval(st, x.X)
